@@ -14,7 +14,7 @@ for d in sorted(os.listdir(os.path.join(HERE, "seeded"))):
     notes = ""
     np_ = os.path.join(HERE, "seeded", d, "notes.md")
     if os.path.exists(np_):
-        txt = open(np_).read()
+        txt = open(np_, errors="replace").read()
         first = [l.strip() for l in txt.splitlines() if l.strip() and not l.startswith("#")]
         notes = (first[0] if first else "")[:140]
     what = m.get("summary") or notes
